@@ -74,7 +74,8 @@ def finish(pid, tier, level, results, t0, explanation, assumptions, outside, ext
     # still makes the check exit 2, and the quick tier treats a time-out as inconclusive as well.
     unfinished = []
     if tier == 'thorough' and holds:
-        unfinished = [r for r in inconcl if str(r.get('reason', '')).startswith('job timed out')]
+        budget = ('job timed out', 'solver answered unknown / timed out', 'reduced product has more than')
+        unfinished = [r for r in inconcl if str(r.get('reason', '')).startswith(budget)]
         inconcl = [r for r in inconcl if r not in unfinished]
     known_lines = []
     for r in results:
